@@ -106,6 +106,9 @@ def scenario(FileLock, install, choose, advance, raises, nretry=2):
                 coros[i].send(None)
             except StopIteration:
                 alive[i] = False
+            # a holder keeps its lock file for as long as it is inside (somebody giving up must not remove it)
+            if (inside[0] or inside[1]) and not fs.exists:
+                return 'a task is inside its critical section but the lock file is gone'
         else:
             return 'tasks did not finish'
         if 'two writers inside' in log:
